@@ -52,7 +52,8 @@ def build(case):
         nodes = list(h)
         parent = nodes[c["at"] % len(nodes)]
         # a fresh Builder per planted op: generated TypeDef names (D0, D1, ...) are per descriptor
-        n = h.add_node(build_op(c["op"], Builder()), parent, metadata=c.get("md"))
+        kw_ = {"num_outs": c["num_outs"]} if c.get("num_outs") is not None else {}
+        n = h.add_node(build_op(c["op"], Builder()), parent, metadata=c.get("md"), **kw_)
         if c["op"]["k"] in ("FuncDefn", "DFG", "TailLoop", "DataflowBlock", "Case"):
             # give containers an Input/Output pair so that they look like built ones
             from hugr import ops
